@@ -516,3 +516,6 @@ def run(S):
     shared.writers_revalidate(S)
     # storage names are keys of the catalogue tree: 'a map from arbitrary byte-string names' needs the one key order
     shared.key_order(S)
+    # list_storages is a scan of the catalogue: every listed name is the key of the entry visited (shared with C04)
+    from checks import C04
+    C04.rule_key(S)
